@@ -102,7 +102,7 @@ def catalogue():
                                {"o": ref("SUB", "y")})], "TOP", {"x": 1, "off": True}))
 
     # 9. splitting stage with run-time chunk count 2 / 0 and a consumer
-    for nm, val in (("split2", [1, 2]), ("split0", []), ("split1", [5])):
+    for nm, val in (("split2", [1, 2]), ("split0", []), ("split1", [5]), ("split10", list(range(10)))):
         P.append(program(nm, [], [S_split("S"), stage("R", "int[] xs", "int n", {"n": length("xs")})],
                          [pipeline("TOP", "int[] xs", "int[] o, int n, int m",
                                    [call("S", binds={"xs": self_("xs")}),
